@@ -10,9 +10,17 @@
 //!   With `ls=1` (one line per read) every item carries `@<bytes delivered by the source>`.
 //!   An item longer than 512 bytes is printed as `<first 16 bytes>~<len>:<fnv1a-64>`, a whole text longer
 //!   than 32768 bytes as `D<items>:<len>:<fnv1a-64>|<final outcome>` (`short_item`, `join_obs`).
+//!   State after the final result: the item function is called again `RECALLS` times on the same
+//!   object (`next_clause`; `parse_log` on the same `LineReader`) and every outcome is appended as
+//!   `|AGAIN:<item | END | E:…>` (the driver re-runs the model on the state it is left in; a
+//!   parser whose constructor failed has no object to ask).  `header()` is asked again after every
+//!   call; `|HDRDRIFT:<when>=<header>` appears only if the answer changed (the model has one
+//!   header), `|AGAINVARIANT:<schedule>=<outcomes>` only if a schedule's re-calls differ.
 //! Oracles: C01 (same observation under every schedule), C03 (write∘parse), C04 (fault ⇒ io),
 //! C05 (no panic), C06 (independent reading), C07/C03 (expected value `x`), C08 (location in
-//! range / on the corrupted token `t`), C09 (no line pulled beyond the completing one).
+//! range / on the corrupted token `t`), C09 (no line pulled beyond the completing one);
+//! re-calls: C05 (no panic), C08 (location still inside the input, not before the earlier error),
+//! C01 (same under every schedule); header asked again: C03 / C06 (`drift_oracles`).
 use crate::common::*;
 use flussab::{DeferredReader, DeferredWriter};
 use flussab_cnf::{cnf, gcnf, sat_solver_log, wcnf, Dimacs, InnerParseError, ParseError};
@@ -37,6 +45,78 @@ fn lits_str<L: Dimacs>(lits: &[L]) -> String {
 pub struct RunObs {
     pub items: Vec<(String, usize)>,
     pub fin: String,
+}
+
+/// A run of a DIMACS-family parser object: what it handed out up to its final outcome (`obs`),
+/// and what it said when it was asked again afterwards.
+pub struct Run {
+    pub obs: RunObs,
+    /// what the item function (`next_clause` / `parse_log`) returned when it was called again,
+    /// `RECALLS` times, on the same object after its final outcome `fin`: an item text, `END`,
+    /// `E:io`, `E:syn:<line>:<col>`, `E:panic` (after which no further call is made)
+    pub again: Vec<String>,
+    /// `header()` was queried again after every call of `next_clause` (items, final outcome,
+    /// re-calls) and this is the first answer that differed from the one given right after
+    /// construction: (when, what it said then)
+    pub hdr_drift: Option<(String, String)>,
+}
+
+impl std::ops::Deref for Run {
+    type Target = RunObs;
+    fn deref(&self) -> &RunObs {
+        &self.obs
+    }
+}
+
+/// How often the item function is called again after its final outcome.
+pub const RECALLS: usize = 2;
+
+thread_local! {
+    /// Number of re-calls the parser runners make (`RECALLS`, or 0 for the schedule variants that
+    /// are run without them: every input is re-called under the one-shot schedule, the 1-byte
+    /// schedule and two more that rotate with the input, which keeps the cost of a case down).
+    pub static RECALL_N: std::cell::Cell<usize> = std::cell::Cell::new(RECALLS);
+}
+
+/// Run `f` with the re-calls switched on or off.
+pub fn with_recalls<T>(on: bool, f: impl FnOnce() -> T) -> T {
+    // restored on unwinding too (a harness panic is caught per case by `main`)
+    struct Restore(usize);
+    impl Drop for Restore {
+        fn drop(&mut self) {
+            RECALL_N.with(|c| c.set(self.0));
+        }
+    }
+    let _restore = Restore(RECALL_N.with(|c| c.replace(if on { RECALLS } else { 0 })));
+    f()
+}
+
+/// Whether schedule variant number `i` (1-based position in `schedules`) of an input of `len`
+/// bytes is run with re-calls.
+pub fn recalls_on(i: usize, name: &str, len: usize) -> bool {
+    name == "1-byte" || (i + len) % 3 == 0
+}
+
+/// `|AGAIN:<outcome>` per re-call (part of the observation; the Lean driver runs the model's
+/// item function again on the state the model is left in).
+pub fn again_text(again: &[String]) -> String {
+    again.iter().map(|o| format!("|AGAIN:{}", o)).collect()
+}
+
+impl Run {
+    pub fn new(items: Vec<(String, usize)>, fin: String) -> Run {
+        Run { obs: RunObs { items, fin }, again: vec![], hdr_drift: None }
+    }
+    pub fn again_text(&self) -> String {
+        again_text(&self.again)
+    }
+    /// Observation suffix for state that the model does not have: present only if it is wrong.
+    pub fn drift_text(&self) -> String {
+        match &self.hdr_drift {
+            Some((when, h)) => format!("|HDRDRIFT:{}={}", when, h),
+            None => String::new(),
+        }
+    }
 }
 
 impl RunObs {
@@ -152,7 +232,7 @@ pub fn prepare_reader(reader: &mut DeferredReader, chunk: usize, total: usize) {
     }
 }
 
-fn run_typed<L: Dimacs + 'static>(fmt: &str, cfg: bool, src: SchedSource, chunk: usize) -> RunObs {
+fn run_typed<L: Dimacs + 'static>(fmt: &str, cfg: bool, src: SchedSource, chunk: usize) -> Run {
     let delivered = |s: &SchedSource| s.0.borrow().log.len();
     let mut reader = DeferredReader::from_read(src.clone());
     let total = src.0.borrow().data.len();
@@ -169,25 +249,54 @@ fn run_typed<L: Dimacs + 'static>(fmt: &str, cfg: bool, src: SchedSource, chunk:
                 $module::Parser::<L>::new(flussab::text::LineReader::new(reader), config)
             };
             match parser {
-                Err(e) => return RunObs { items, fin: err_obs(&e) },
+                Err(e) => return Run::new(items, err_obs(&e)),
                 Ok(mut p) => {
-                    items.push((
-                        match p.header() {
-                            Some(h) => $hdr(h),
-                            None => "H:-".to_string(),
-                        },
-                        delivered(&src),
-                    ));
-                    loop {
+                    let hdr_of = |p: &$module::Parser<L>| match p.header() {
+                        Some(h) => $hdr(h),
+                        None => "H:-".to_string(),
+                    };
+                    let h0 = hdr_of(&p);
+                    items.push((h0.clone(), delivered(&src)));
+                    let mut hdr_drift: Option<(String, String)> = None;
+                    // the header is a fact about the document: whenever it is asked for, before,
+                    // between or after the clauses, the answer is the one given first
+                    let recheck = |p: &$module::Parser<L>, drift: &mut Option<(String, String)>, when: String| {
+                        if drift.is_none() {
+                            let h = hdr_of(p);
+                            if h != h0 {
+                                *drift = Some((when, h));
+                            }
+                        }
+                    };
+                    let fin = loop {
                         match p.next_clause() {
                             Ok(Some(c)) => {
                                 let s = $item(c);
                                 items.push((s, delivered(&src)));
+                                recheck(&p, &mut hdr_drift, format!("after-clause-{}", items.len() - 1));
                             }
-                            Ok(None) => return RunObs { items, fin: "END".into() },
-                            Err(e) => return RunObs { items, fin: err_obs(&e) },
+                            Ok(None) => break "END".to_string(),
+                            Err(e) => break err_obs(&e),
                         }
+                    };
+                    recheck(&p, &mut hdr_drift, format!("after-{}", fin));
+                    // the item function called again after its final outcome
+                    let mut again = vec![];
+                    for i in 0..RECALL_N.with(|c| c.get()) {
+                        let o = catch(|| match p.next_clause() {
+                            Ok(Some(c)) => short_item(&$item(c)),
+                            Ok(None) => "END".to_string(),
+                            Err(e) => err_obs(&e),
+                        })
+                        .unwrap_or_else(|| "E:panic".to_string());
+                        let stop = o == "E:panic";
+                        again.push(o);
+                        if stop {
+                            break;
+                        }
+                        recheck(&p, &mut hdr_drift, format!("after-recall-{}", i + 1));
                     }
+                    return Run { obs: RunObs { items, fin }, again, hdr_drift };
                 }
             }
         }};
@@ -210,27 +319,35 @@ fn run_typed<L: Dimacs + 'static>(fmt: &str, cfg: bool, src: SchedSource, chunk:
         ),
         "log" => {
             let mut lr = flussab::text::LineReader::new(reader);
-            match sat_solver_log::parse_log::<L>(
-                &mut lr,
-                sat_solver_log::Config::default().ignore_unknown_lines(cfg),
-            ) {
+            let config = || sat_solver_log::Config::default().ignore_unknown_lines(cfg);
+            let sat_str = |s: Option<bool>| match s {
+                Some(true) => "sat",
+                Some(false) => "unsat",
+                None => "none",
+            };
+            let fin = match sat_solver_log::parse_log::<L>(&mut lr, config()) {
                 Ok(log) => {
-                    items.push((
-                        format!(
-                            "S:{}",
-                            match log.satisfiable {
-                                Some(true) => "sat",
-                                Some(false) => "unsat",
-                                None => "none",
-                            }
-                        ),
-                        delivered(&src),
-                    ));
+                    items.push((format!("S:{}", sat_str(log.satisfiable)), delivered(&src)));
                     items.push((format!("A:{}", lits_str(&log.assignment)), delivered(&src)));
-                    RunObs { items, fin: "END".into() }
+                    "END".to_string()
                 }
-                Err(e) => RunObs { items, fin: err_obs(&e) },
+                Err(e) => err_obs(&e),
+            };
+            // `parse_log` called again on the same `LineReader`
+            let mut again = vec![];
+            for _ in 0..RECALL_N.with(|c| c.get()) {
+                let o = catch(|| match sat_solver_log::parse_log::<L>(&mut lr, config()) {
+                    Ok(log) => short_item(&format!("L:{}:{}", sat_str(log.satisfiable), lits_str(&log.assignment))),
+                    Err(e) => err_obs(&e),
+                })
+                .unwrap_or_else(|| "E:panic".to_string());
+                let stop = o == "E:panic";
+                again.push(o);
+                if stop {
+                    break;
+                }
             }
+            Run { obs: RunObs { items, fin }, again, hdr_drift: None }
         }
         _ => panic!("bad fmt"),
     }
@@ -253,7 +370,7 @@ impl<const M: isize> Dimacs for ChkD<M> {
 }
 
 /// The document parsed with the checked literal type whose `MAX_DIMACS` is `m` (1..=16).
-pub fn run_parser_chk(fmt: &str, cfg: bool, src: SchedSource, m: usize) -> Option<RunObs> {
+pub fn run_parser_chk(fmt: &str, cfg: bool, src: SchedSource, m: usize) -> Option<Run> {
     let r = catch(|| match m {
         1 => run_typed::<ChkD<1>>(fmt, cfg, src.clone(), 16384),
         2 => run_typed::<ChkD<2>>(fmt, cfg, src.clone(), 16384),
@@ -271,16 +388,16 @@ pub fn run_parser_chk(fmt: &str, cfg: bool, src: SchedSource, m: usize) -> Optio
         14 => run_typed::<ChkD<14>>(fmt, cfg, src.clone(), 16384),
         15 => run_typed::<ChkD<15>>(fmt, cfg, src.clone(), 16384),
         16 => run_typed::<ChkD<16>>(fmt, cfg, src.clone(), 16384),
-        _ => RunObs { items: vec![], fin: "SKIP".into() },
+        _ => Run::new(vec![], "SKIP".into()),
     });
     match r {
         Some(o) if o.fin == "SKIP" => None,
         Some(o) => Some(o),
-        None => Some(RunObs { items: vec![], fin: "E:panic".into() }),
+        None => Some(Run::new(vec![], "E:panic".into())),
     }
 }
 
-pub fn run_parser(fmt: &str, ty: &str, cfg: bool, src: SchedSource, chunk: usize) -> RunObs {
+pub fn run_parser(fmt: &str, ty: &str, cfg: bool, src: SchedSource, chunk: usize) -> Run {
     let r = catch(|| match ty {
         "i8" => run_typed::<i8>(fmt, cfg, src.clone(), chunk),
         "i16" => run_typed::<i16>(fmt, cfg, src.clone(), chunk),
@@ -289,7 +406,7 @@ pub fn run_parser(fmt: &str, ty: &str, cfg: bool, src: SchedSource, chunk: usize
         "isize" => run_typed::<isize>(fmt, cfg, src.clone(), chunk),
         _ => panic!("bad type"),
     });
-    r.unwrap_or(RunObs { items: vec![], fin: "E:panic".into() })
+    r.unwrap_or(Run::new(vec![], "E:panic".into()))
 }
 
 /// The schedules every input is parsed under (C01): (name, events, chunk size).
@@ -483,6 +600,76 @@ pub fn variant_oracles(
     fails
 }
 
+// ------------------------------------------------------------------ state after the final result
+
+fn syn_pos(o: &str) -> Option<(usize, usize)> {
+    let (l, c) = o.strip_prefix("E:syn:")?.split_once(':')?;
+    Some((l.parse().ok()?, c.parse().ok()?))
+}
+
+/// What the properties say about the outcomes of calling the item function (`what`) again on the
+/// same parser object after its final outcome `fin` — whatever such a call returns:
+/// * C05: it returns, it does not panic;
+/// * C08: a syntax error still names a place inside the input (line within the input, column
+///   within that line + 1), and a place at or after the one the earlier error named — the parser
+///   only moves forward, so the token that stops a later call cannot lie before the token that
+///   stopped an earlier one.
+/// Used by the `cnf` and `btor2` engines (`eng_btor2` adds the line-independence clause).
+pub fn recall_oracles(delivered: &[u8], fin: &str, again: &[String], what: &str, sname: &str) -> Vec<String> {
+    let mut fails = vec![];
+    if !again.iter().any(|o| o == "E:panic" || o.starts_with("E:syn:")) {
+        return fails;
+    }
+    let mut lines: Vec<&[u8]> = delivered.split(|b| *b == b'\n').collect();
+    if lines.last().map(|l| l.is_empty()).unwrap_or(false) {
+        lines.pop();
+    }
+    let len_of = |l: usize| if l >= 1 && l <= lines.len() { lines[l - 1].len() } else { 0 };
+    let mut prev_out = fin.to_string();
+    let mut prev_err: Option<(usize, usize)> = syn_pos(fin);
+    for (i, o) in again.iter().enumerate() {
+        if o == "E:panic" {
+            fails.push(format!("C05:{} panicked when it was called again (call {} after {}, schedule {})", what, i + 1, prev_out, sname));
+        }
+        if let Some((l, col)) = syn_pos(o) {
+            if l < 1 || l > lines.len() + 1 || col < 1 || col > len_of(l) + 1 {
+                fails.push(format!(
+                    "C08:{} called again after {} reports a syntax error at {}:{}, outside the input ({} lines, line {} has {} bytes, call {}, schedule {})",
+                    what, prev_out, l, col, lines.len(), l, len_of(l), i + 1, sname
+                ));
+            } else if let Some((pl, pc)) = prev_err {
+                if (l, col) < (pl, pc) {
+                    fails.push(format!(
+                        "C08:{} called again reports a syntax error at {}:{}, before the earlier error at {}:{} (call {}, schedule {})",
+                        what, l, col, pl, pc, i + 1, sname
+                    ));
+                }
+            }
+            prev_err = Some((l, col));
+        }
+        prev_out = o.clone();
+    }
+    fails
+}
+
+/// C03 / C06: the header is a fact about the document.  `header()` asked again — between the
+/// clauses, after the final result, after further calls — must say what it said first; otherwise
+/// the value obtained by parsing depends on when the caller looks at it (write∘parse is no longer
+/// the identity for a caller that reads the header last), and it is not what the text says.
+fn drift_oracles(run: &Run, sname: &str) -> Vec<String> {
+    let mut fails = vec![];
+    if let Some((when, h)) = &run.hdr_drift {
+        let h0 = run.items.first().map(|x| x.0.as_str()).unwrap_or("?");
+        fails.push(format!("C03:header() returned {} right after construction but {} {} (schedule {}): the parsed value depends on when it is read", h0, h, when, sname));
+        fails.push(format!("C06:header() returns {} {} but the header line of the text says {} (schedule {})", h, when, h0, sname));
+    }
+    fails
+}
+
+fn item_fn(fmt: &str) -> &'static str {
+    if fmt == "log" { "parse_log" } else { "next_clause" }
+}
+
 // ------------------------------------------------------------------ the case runner
 
 pub struct Case {
@@ -526,7 +713,7 @@ impl Case {
             "cnf fmt={} ty={} cfg={} k={} ls={} d={}{}{}",
             self.fmt, self.ty, self.cfg as u8,
             match self.k { Some(k) => k.to_string(), None => "-".into() },
-            if self.lsb { 2 } else { self.ls as u8 }, hex(&self.data),
+            if self.lsb { 2 } else { self.ls as u8 }, compact_field(&self.data),
             match &self.expect { Some(x) => format!(" x={}", x), None => String::new() },
             match &self.tok { Some((l, c, n)) => format!(" t={}:{}:{}", l, c, n), None => String::new() },
         )
@@ -596,6 +783,8 @@ pub fn run_case(line: &str) -> (String, Vec<String>) {
         if obs.fin == "E:panic" {
             fails.push("C05:parser panicked".into());
         }
+        fails.extend(drift_oracles(&obs, "one line per read"));
+        fails.extend(recall_oracles(&delivered, &obs.fin, &obs.again, item_fn(&c.fmt), "one line per read"));
         if c.fmt != "log" {
             if let Some(rd) = reference_read(&c.fmt, &delivered) {
                 if obs.fin == "END" {
@@ -616,7 +805,7 @@ pub fn run_case(line: &str) -> (String, Vec<String>) {
                 }
             }
         }
-        return (obs.ctext(true), fails);
+        return (obs.ctext(true) + &obs.again_text() + &obs.drift_text(), fails);
     }
 
     // ---- C01: every schedule gives the same observation
@@ -635,15 +824,31 @@ pub fn run_case(line: &str) -> (String, Vec<String>) {
         fails.push(format!("C05:parsing {} bytes allocated {} bytes at peak (largest request {})", delivered.len(), peak, largest));
     }
     let base_text = base.ctext(false);
+    // state after the final result (re-calls, header asked again): oracles on every schedule; a
+    // schedule whose re-calls differ from the one-shot run's is a C01 failure and part of the
+    // observation, as is a header that changed (the model has neither)
+    fails.extend(drift_oracles(&base, "one-shot"));
+    fails.extend(recall_oracles(&delivered, &base.fin, &base.again, item_fn(&c.fmt), "one-shot"));
+    let mut state_note = base.drift_text();
+    let mut again_note = String::new();
     // results under the other schedules; those that differ from the one-shot run are kept so that
     // the value-level oracles below also see what the cold (byte-wise) scanner paths accepted
-    let mut variants: Vec<(String, RunObs)> = vec![];
+    let mut variants: Vec<(String, Run)> = vec![];
     let mut variant_note = String::new();
     // fault-free run of the whole data (C04)
-    let free: Option<RunObs> = if fault { Some(run_parser(&c.fmt, &c.ty, c.cfg, SchedSource::new(c.data.clone(), false, vec![]), 16384)) } else { None };
-    for (name, ev, chunk) in scheds.iter().skip(1) {
-        let ro = run_parser(&c.fmt, &c.ty, c.cfg, mk(ev.clone()), *chunk);
+    let free: Option<Run> = if fault { Some(with_recalls(false, || run_parser(&c.fmt, &c.ty, c.cfg, SchedSource::new(c.data.clone(), false, vec![]), 16384))) } else { None };
+    for (i, (name, ev, chunk)) in scheds.iter().enumerate().skip(1) {
+        let rc = recalls_on(i, name, delivered.len());
+        let ro = with_recalls(rc, || run_parser(&c.fmt, &c.ty, c.cfg, mk(ev.clone()), *chunk));
         let o = ro.ctext(false);
+        if state_note.is_empty() {
+            // (reported for the first schedule that shows it)
+            fails.extend(drift_oracles(&ro, name));
+            state_note = ro.drift_text();
+        }
+        if rc && (ro.again != base.again || ro.fin != base.fin) {
+            fails.extend(recall_oracles(&delivered, &ro.fin, &ro.again, item_fn(&c.fmt), name));
+        }
         if fault && name.starts_with("sniff") {
             // the caller's own look-ahead may have met the failure before the parser started:
             // the outcome may then differ from the one-shot run, but C04 still binds it
@@ -670,6 +875,12 @@ pub fn run_case(line: &str) -> (String, Vec<String>) {
                 fails.push(format!("C08:error location depends on how the bytes arrive: one-shot {} but {} {}", base.fin, name, ro.fin));
             }
             variants.push((name.clone(), ro));
+        } else if rc && ro.again != base.again && again_note.is_empty() {
+            fails.push(format!(
+                "C01:what {} returns when called again after {} depends on the read schedule: one-shot={} {}={}",
+                item_fn(&c.fmt), base.fin, base.again.join(","), name, ro.again.join(",")
+            ));
+            again_note = format!("|AGAINVARIANT:{}={}", name, ro.again.join(","));
         }
     }
     if base.fin == "E:panic" {
@@ -680,7 +891,7 @@ pub fn run_case(line: &str) -> (String, Vec<String>) {
     if delivered.len() <= 2048 {
         for m in [1 + delivered.len() % 16, 1 + (delivered.len() / 16 + 7) % 16] {
             if let Some(o) = run_parser_chk(&c.fmt, c.cfg, mk(vec![]), m) {
-                if o.fin == "E:panic" {
+                if o.fin == "E:panic" || o.again.iter().any(|a| a == "E:panic") {
                     fails.push(format!("C05:parser panicked with a literal type whose MAX_DIMACS is {} (from_dimacs outside its range, or another panic)", m));
                 }
             }
@@ -705,8 +916,8 @@ pub fn run_case(line: &str) -> (String, Vec<String>) {
         }
     }
     // ---- C08: error location designates a position inside the input (under every schedule)
-    let mut all_runs: Vec<(&str, &RunObs)> = vec![("one-shot", &base)];
-    all_runs.extend(variants.iter().map(|(n, r)| (n.as_str(), r)));
+    let mut all_runs: Vec<(&str, &RunObs)> = vec![("one-shot", &base.obs)];
+    all_runs.extend(variants.iter().map(|(n, r)| (n.as_str(), &r.obs)));
     for (sname, run) in all_runs.iter() {
     if let Some(rest) = run.fin.strip_prefix("E:syn:") {
         let (l, col) = rest.split_once(':').unwrap();
@@ -745,8 +956,8 @@ pub fn run_case(line: &str) -> (String, Vec<String>) {
         }
     }
     // ---- C06: independent reading of accepted inputs
-    let mut accepted: Vec<&RunObs> = vec![&base];
-    accepted.extend(variants.iter().map(|(_, r)| r));
+    let mut accepted: Vec<&RunObs> = vec![&base.obs];
+    accepted.extend(variants.iter().map(|(_, r)| &r.obs));
     for run in accepted.iter().filter(|r| !fault && r.fin == "END" && c.fmt != "log") {
         match reference_read(&c.fmt, &delivered) {
             None => {}
@@ -797,7 +1008,7 @@ pub fn run_case(line: &str) -> (String, Vec<String>) {
     if !fault && base.fin == "END" && c.fmt != "log" {
         // ---- C03 converse: parse(write(parse(t))) = parse(t)
         if let Some(bytes) = write_back(&c.fmt, &c.ty, &base) {
-            let again = run_parser(&c.fmt, &c.ty, c.cfg, SchedSource::new(bytes.clone(), false, vec![]), 16384).ctext(false);
+            let again = with_recalls(false, || run_parser(&c.fmt, &c.ty, c.cfg, SchedSource::new(bytes.clone(), false, vec![]), 16384)).ctext(false);
             let norm = |s: &str| s.replace("H:-|", "").replace("H:-", "");
             // a missing header stays missing; otherwise identical
             if norm(&again) != norm(&base_text) {
@@ -805,5 +1016,5 @@ pub fn run_case(line: &str) -> (String, Vec<String>) {
             }
         }
     }
-    (base_text + &variant_note, fails)
+    (base_text + &base.again_text() + &state_note + &again_note + &variant_note, fails)
 }
